@@ -243,3 +243,30 @@ def run(ctx):
             )
     if nlist < 2:
         raise AnalysisError(f"only {nlist} S3 listings with Prefix= found in S3FileSystem", "S3FileSystem")
+
+    # ---- C30.9 a file value handed back by a library task is hashed after the task's copies have run ----
+    # A File/Dir object built inside a task body and returned through a lazy `seq([<copy tasks>, value])[i]` is hashed when the seq expression is
+    # hashed, i.e. before any of the copies ran; nothing refreshes it afterwards.
+    r9 = ctx.rule("C30.9", "redun.tools tasks do not return a file value whose hash was fixed before the copies they schedule", floor=1)
+    tm9 = repo.mod("redun/tools.py")
+    n9 = 0
+    for q9, fn9 in tm9.funcs.items():
+        if "." in q9:
+            continue
+        made = {src(a.targets[0]) for a in ast.walk(fn9) if isinstance(a, ast.Assign) and isinstance(a.targets[0], ast.Name) and isinstance(a.value, ast.Call) and (last_attr(a.value) in ("Dir", "File") or call_name(a.value) in ("Dir", "File"))}
+        for c in calls_in(fn9):
+            if call_name(c) == "seq" and c.args and isinstance(c.args[0], (ast.List, ast.Tuple)):
+                n9 += 1
+                elts = c.args[0].elts
+                stale = [src(e) for e in elts if isinstance(e, ast.Name) and e.id in made]
+                has_tasks = any(isinstance(e, ast.Call) for e in elts)
+                r9.check(
+                    not (stale and has_tasks),
+                    f"{tm9.rel}:{q9}:seq-returns-prehashed:{stale[0] if stale else ''}",
+                    f"{q9} puts `{stale[0] if stale else ''}` (created in the task body) into seq([...]) next to the tasks that fill it: the value's hash is computed when the expression is hashed, before those tasks "
+                    "run, and nothing refreshes it -- the Dir returned by copy_dir has the hash of the destination before the copy (is_valid() is False on the value just returned)",
+                    tm9.rel,
+                    c.lineno,
+                )
+    if n9 == 0:
+        r9.good(f"{tm9.rel}:no-seq", "no lazily sequenced file value")
